@@ -138,7 +138,7 @@ Theorem dup_limit (oracle : nat -> bool) h R p :
   exists r h',
     cJSON_Duplicate oracle (Some p) true h = Ret (r, h') /\
     (deep h (Z.to_nat c_CJSON_CIRCULAR_LIMIT) p -> r = None) /\
-    (r = None -> Frame [] [] h h') /\
+    (r = None -> Ext [] [] h h') /\
     (forall c, r = Some c ->
        exists t tc, tid t = p /\ tid tc = c /\ src_t h (Pos.to_nat (h_next h)) (Z.to_nat c_CJSON_CIRCULAR_LIMIT) t /\
                     Done oracle h t tc h').
@@ -154,5 +154,5 @@ Proof.
     + intros c [= <-]. by exists t, tc.
 Qed.
 
-(** what [Frame [] [] h h'] says: see [CoreRefineDupForest.Frame_nil_eq] — all of [h_lnk],
+(** what [Ext [] [] h h'] says: see [CoreRefineDupForest.Ext_nil_eq] — all of [h_lnk],
     [h_dat], [h_str], [h_live], [h_hooks] and the ledger [lib_live] are equal. *)
